@@ -25,6 +25,26 @@ type xm struct {
 	attrs map[string]string // only the attribute values that are asserted
 	kids  []*xm
 	why   string
+	reqs  []attrReq
+}
+
+// attrReq: the attribute's value must (want) / must not contain needle - as a whitespace
+// separated token (class) or as a substring of the value with all whitespace removed (style).
+type attrReq struct {
+	attr, needle string
+	want, token  bool
+}
+
+// bodyOpen / bodyClose wrap the "body" field of map items: markup that carries its own marker,
+// so that raw insertion (v-html) is visible as a marked element.
+const bodyOpen, bodyClose = `<i data-m="bd">`, `</i>`
+
+// raw is what inserting the value as HTML must show: the text, or the marked <i> element.
+func raw(v vals.V) (text string, kids []*xm) {
+	if strings.HasPrefix(v.S, bodyOpen) && strings.HasSuffix(v.S, bodyClose) {
+		return "", []*xm{{id: "bd", text: strings.TrimSuffix(strings.TrimPrefix(v.S, bodyOpen), bodyClose), why: "markup inserted by v-html"}}
+	}
+	return v.S, nil
 }
 
 func (m *xm) String() string { return fmt.Sprintf("%s%q", m.id, m.text) }
@@ -303,7 +323,19 @@ func (in *interp) loop(l *Loop) []*xm {
 						}
 					}
 				}
-				m.kids = in.nodes(l.Body)
+				if l.Fill != nil {
+					// v-html / v-text on the looped element: its content is the value, per item
+					v, ok := in.resolve(l.Fill.Path)
+					if !ok || !isScalar(v.K) {
+						panic("c04 generator: " + l.Fill.Dir + " of unbound or non-scalar " + l.Fill.Path)
+					}
+					m.text = v.S
+					if l.Fill.Dir == "v-html" {
+						m.text, m.kids = raw(v)
+					}
+				} else {
+					m.kids = in.nodes(l.Body)
+				}
 				out = append(out, m)
 			}
 		} else {
@@ -356,6 +388,32 @@ func (in *interp) probe(p *Probe) *xm {
 			if in.holds(r.Cond) {
 				m.kids = append(m.kids, &xm{id: p.ID + "." + itoa(k), text: "t", why: "v-if=" + r.expr() + ", " + in.scopeNote()})
 			}
+		case "thtml", "vhtml", "vtext":
+			if !ok || !isScalar(v.K) {
+				panic("c04 generator: " + r.Pos + " of unbound or non-scalar " + r.Path)
+			}
+			c := &xm{id: p.ID + "." + itoa(k), text: v.S, why: r.Pos + "=" + r.Path + ", " + in.scopeNote()}
+			if r.Pos != "vtext" {
+				c.text, c.kids = raw(v)
+			}
+			m.kids = append(m.kids, c)
+		case "vshow":
+			// docs/syntax.md: v-show toggles the CSS display property, the element stays
+			m.kids = append(m.kids, &xm{id: p.ID + "." + itoa(k), text: "s", why: "v-show=" + r.expr() + ", " + in.scopeNote(),
+				reqs: []attrReq{{attr: "style", needle: "display:none", want: !in.holds(r.Cond)}}})
+		case "class":
+			// docs/syntax.md: object keys become class names, included only when their values are truthy
+			m.kids = append(m.kids, &xm{id: p.ID + "." + itoa(k), text: "c", why: ":class={hit: " + r.expr() + "}, " + in.scopeNote(),
+				reqs: []attrReq{{attr: "class", needle: "hit", want: in.holds(r.Cond), token: true}}})
+		case "style":
+			// docs/syntax.md: style object values are applied as-is; falsy values stay unasserted
+			c := &xm{id: p.ID + "." + itoa(k), text: "y", why: ":style={color: " + r.Path + "}, " + in.scopeNote()}
+			if ok && isScalar(v.K) {
+				if t, _ := v.Truthy(); t {
+					c.reqs = []attrReq{{attr: "style", needle: "color:" + v.S, want: true}}
+				}
+			}
+			m.kids = append(m.kids, c)
 		case "attr":
 			c := &xm{id: p.ID + "." + itoa(k), text: "a", why: ":data-x=" + r.Path + ", " + in.scopeNote()}
 			if ok && isScalar(v.K) {
